@@ -14,10 +14,24 @@ def decodeTimeFrames (s : String) : Option (List TimeFrame) :=
     | [w, a, b] => do some { weekday := (← natOf w), hourStart := (← natOf a), hourEnd := (← natOf b) }
     | _ => none
 
+/-- `ip,name,name;ip,name;…` (hex atoms): the records of a hosts file -/
+def decodeHostsRecords (s : String) : Option (List HostsRecord) :=
+  (splitList2 s).mapM fun e =>
+    match splitList e with
+    | ip :: names => do some { ip := (← bytesOfHex ip), names := (← names.mapM bytesOfHex) }
+    | [] => none
+
 /-- configuration of the request pipeline; when `tf=` and `now=wd,hour` are given the time-frame
-    control is evaluated by the model instead of being passed in as `time=` -/
+    control is evaluated by the model instead of being passed in as `time=`; when `hostsrec=` is given
+    the localhost names are composed by the model from the hosts file's records (`hpLocalhost`)
+    instead of being passed in as `localnames=` -/
 def decodeCfg (t : List String) : Option Cfg := do
-  let cfg ← Req.decodeCfg t
+  let cfg0 ← Req.decodeCfg t
+  let cfg ← match kv t "hostsrec" with
+    | some h => do
+      let recs ← decodeHostsRecords h
+      some { cfg0 with localhostNames := hpLocalhost (localhostAliases recs) }
+    | none => some cfg0
   match kv t "tf", kv t "now", kv t "at" with
   | some tf, _, some inst =>
     -- `at=unix,offset`: the model reads the local wall clock itself
@@ -50,6 +64,12 @@ def handle : List String → String
     | some ns, some h =>
       let cfg : Cfg := { tag := [], name := [], localhostNames := ns }
       s!"impl={ofBool (isLocalhost cfg h)} spec={ofBool (isLocalhostSpec cfg h)} loopback={ofBool (isLoopbackLiteral (Ascii.lower h))} unspecified={ofBool (isUnspecifiedLiteral (Ascii.lower h))}"
+    | _, _ => "bad-op"
+  | ["localhostof", recs, host] =>
+    -- the alias list `hostsfile.LocalhostAliases` yields for the records, and the classifier of an
+    -- instance constructed with that hosts file
+    match decodeHostsRecords recs, bytesOfHex host with
+    | some rs, some h => s!"aliases={hexList (localhostAliases rs)} local={ofBool (isLocalhostOf (localhostAliases rs) h)}"
     | _, _ => "bad-op"
   | ["parseip", s] =>
     match bytesOfHex s with
